@@ -310,9 +310,10 @@ def gen_cross_key_grid():
     events full of rewritable strings."""
     probes = ["(3) Facebook", "Cemu - FPS: 59.2 - game", "* unsaved", "plain"]
     n = 0
+    url_canaries = [u for u in CANARIES if u not in TITLES]
     for key in ("name", "app", "label", "url", "title"):
-        for t in TITLES:
-            for kv in probes:
+        for t in TITLES + url_canaries:
+            for kv in (probes if t in TITLES else probes[:1]):
                 n += 1
                 full = [(k, t) for k in ("app", "title", "url", "name", "label") if k != key]
                 full.insert(n % (len(full) + 1), (key, kv))
